@@ -182,7 +182,7 @@ func verifEventFields(e verifTxEvent) []sdk.Val {
 	if !e.bridge {
 		sender = verifForeign
 	}
-	payload := "0200"
+	payload := "0300" // neither a transfer nor an attestation (attestations: VerifC08_Attest)
 	if e.transfer {
 		payload = "0100"
 	}
@@ -293,4 +293,112 @@ func VerifC08_Reobserve() {
 		zzverif.Reach("nothing-forwarded")
 	}
 	zzverif.Assert(failAt == 0 || failAt > calls || forwarded == 0, "nothing-forwarded-after-an-api-error")
+}
+
+func verifTrimZeros(b []byte) []byte {
+	for len(b) > 0 && b[0] == 0 {
+		b = b[1:]
+	}
+	for len(b) > 0 && b[len(b)-1] == 0 {
+		b = b[:len(b)-1]
+	}
+	return b
+}
+
+// C08 (d): token attestations, polling and re-observation path alike. The event carries an attestation payload (length
+// 99/100/101, token chain id, decimals, four symbol bytes and two name bytes symbolic; the ALPH token or a token contract
+// in a symbolic group); the token contract reports a symbolic symbol, name and one of five decimals numerals. The event
+// is kept for the signing pipeline only if the payload has the attestation length, names the Alephium chain and its
+// decimals, symbol and name equal what the token contract (for ALPH: the protocol constants) reports - the contract
+// being asked in the token's own group; an attestation that matches is kept.
+func VerifC08_Attest() {
+	w := verifWatcher(false)
+	plen := zzverif.Len("plen", 100, 99, 101)
+	p := make([]byte, plen)
+	p[0] = AttestTokenPayloadId
+	alph := zzverif.Len("alphToken", 0, 1) == 1
+	if !alph {
+		p[1], p[32] = 0x77, zzverif.U8("group")
+	}
+	tc := zzverif.Blob("tokenChain", 2)
+	p[33], p[34] = tc[0], tc[1]
+	p[35] = zzverif.U8("dec")
+	sym, name := zzverif.Blob("sym", 4), zzverif.Blob("name", 2)
+	copy(p[36:], sym)
+	if alph {
+		copy(p[68:], "Alephium")
+		p[68+7] = name[0]
+	} else {
+		copy(p[68:], name)
+	}
+	csym, cname := zzverif.Blob("csym", 4), zzverif.Blob("cname", 2)
+	cdec := zzverif.Len("cdec", 8, 0, 18, 255, 256)
+	asked := 0
+	groupsOK := true
+	zzverif.Hooks["Client.MultiCallContract"] = func(ctx context.Context, multiCall *sdk.MultipleCallContract) (*sdk.MultipleCallContractResult, error) {
+		asked++
+		for _, c := range multiCall.Calls {
+			if c.Group != int32(p[32]) {
+				groupsOK = false
+			}
+		}
+		ok := func(v sdk.Val) sdk.CallContractResult {
+			return sdk.CallContractResult{CallContractSucceeded: &sdk.CallContractSucceeded{Returns: []sdk.Val{v}}}
+		}
+		return &sdk.MultipleCallContractResult{Results: []sdk.CallContractResult{
+			ok(sdk.Val{ValByteVec: &sdk.ValByteVec{Type: "ByteVec", Value: hex.EncodeToString(csym)}}),
+			ok(sdk.Val{ValByteVec: &sdk.ValByteVec{Type: "ByteVec", Value: hex.EncodeToString(cname)}}),
+			ok(sdk.Val{ValU256: &sdk.ValU256{Type: "U256", Value: strconv.Itoa(cdec)}}),
+		}}, nil
+	}
+	fields := []sdk.Val{
+		{ValByteVec: &sdk.ValByteVec{Type: "ByteVec", Value: verifBridge.ToHex()}},
+		{ValU256: &sdk.ValU256{Type: "U256", Value: "2"}},
+		{ValU256: &sdk.ValU256{Type: "U256", Value: "7"}},
+		{ValByteVec: &sdk.ValByteVec{Type: "ByteVec", Value: "00000001"}},
+		{ValByteVec: &sdk.ValByteVec{Type: "ByteVec", Value: hex.EncodeToString(p)}},
+		{ValU256: &sdk.ValU256{Type: "U256", Value: "1"}},
+	}
+	ctx := context.Background()
+	kept := false
+	if zzverif.Len("path", 0, 1) == 0 {
+		var res []*UnconfirmedEvent
+		var err error
+		zzverif.NoPanic(func() {
+			res, err = w.handleUnconfirmedEvents(ctx, zap.NewNop(), &sdk.ContractEvents{Events: []sdk.ContractEvent{
+				{BlockHash: "bh", TxId: "tx", EventIndex: WormholeMessageEventIndex, Fields: fields}}})
+		})
+		zzverif.Assert(err == nil, "attestation-never-stops-the-watcher")
+		kept = len(res) == 1
+	} else {
+		zzverif.Hooks["Client.GetEventsByTxId"] = func(ctx context.Context, txId string) (*sdk.ContractEventsByTxId, error) {
+			return &sdk.ContractEventsByTxId{Events: []sdk.ContractEventByTxId{
+				{BlockHash: "bh", ContractAddress: verifGovAddr, EventIndex: WormholeMessageEventIndex, Fields: fields}}}, nil
+		}
+		zzverif.Hooks["Client.GetBlockHeader"] = func(ctx context.Context, hash string) (*sdk.BlockHeaderEntry, error) {
+			return &sdk.BlockHeaderEntry{Hash: hash, Height: 5, Timestamp: 1000}, nil
+		}
+		var res []*reobservedEvent
+		zzverif.NoPanic(func() { res, _ = w.getGovernanceEventsByTxId(ctx, zap.NewNop(), w.client, verifGovAddr, "bh", "tx") })
+		kept = len(res) == 1
+	}
+	wellFormed := plen == AttestTokenPayloadLength && tc[0] == 0 && tc[1] == 255
+	var matches bool
+	if alph {
+		matches = p[35] == 18 && string(verifTrimZeros(sym)) == "ALPH" && name[0] == 'm'
+	} else {
+		matches = cdec <= 255 && int(p[35]) == cdec && string(verifTrimZeros(sym)) == string(verifTrimZeros(csym)) &&
+			string(verifTrimZeros(name)) == string(verifTrimZeros(cname))
+	}
+	if kept {
+		zzverif.Reach("attestation-kept")
+		zzverif.Assert(wellFormed, "kept-attestation-has-the-attestation-layout")
+		zzverif.Assert(matches, "kept-attestation-equals-what-the-token-contract-reports")
+		if !alph {
+			zzverif.Assert(asked > 0 && groupsOK, "token-contract-asked-in-the-token-group")
+		}
+	} else {
+		zzverif.Reach("attestation-dropped")
+		zzverif.Assert(!(wellFormed && matches), "matching-attestation-is-kept")
+	}
 }
